@@ -264,6 +264,24 @@ def run(E: Engine, rep: Report, tier: str) -> dict:
             rep.check(not bad, "SUFFIX", f"{m.short}|{norm(n)}", f"`{norm(n)}` is a substring test", f"{m.short}: `{norm(n)}` tests a basis name for equality, but here the name may carry the '_with_error' suffix (leakage) -- 'ground-rydberg_with_error' would take the other branch; use a substring test or strip the suffix first", E.where(m, n))
     rep.floor("SUFFIX", 4)
 
+    # ------------------------------------------------- SIB: every sampling entry point goes through sample_state
+    # (CoherentResults overrides sample_state to apply the detection errors; a base-class method that samples the
+    # final result directly bypasses them)
+    sfs = E.fn("pulser_simulation.simresults.SimulationResults.sample_final_state")
+    r_ = S(E, sfs).ret
+    rep.check(is_(r_, "self.sample_state(self._sim_times[-1], N_samples)") is not None, "SIB", "SimulationResults.sample_final_state|delegates-to-sample_state", "sample_final_state = sample_state(last time, N)", f"sample_final_state returns {sh(r_, 100)}: it must go through the overridable sample_state (which applies the detection errors), at the last simulation time", E.where(sfs))
+    # the two ways of changing the configuration keep a custom initial state when the dimension is unchanged
+    for nm_ in ("set_config", "add_config"):
+        g_ = E.fn(f"pulser_simulation.simulation.QutipEmulator.{nm_}")
+        cs_ = [l for l in S(E, g_, inline=False).log if l.fn == g_.short and l.kind == "call" and l.target == ("attr", ("name", "self"), "set_initial_state")]
+        keep = [l for l in cs_ if l.value[2] and l.value[2][0] == ("attr", ("name", "self"), "_initial_state")]
+        reset = [l for l in cs_ if l.value[2] and l.value[2][0] == ("const", "all-ground")]
+        same_dim = lambda l: any(is_(x, "self.dim == Q_f") is not None for x in sym.conj_of(l.cond))  # noqa: E731
+        diff_dim = lambda l: any(is_(x, "self.dim != Q_f") is not None for x in sym.conj_of(l.cond))  # noqa: E731
+        ok_ = bool(keep) and all(same_dim(l) for l in keep) and bool(reset) and all(diff_dim(l) for l in reset)
+        rep.check(ok_, "SIB", f"QutipEmulator.{nm_}|initial-state-kept-iff-dimension-unchanged", "the current initial state is re-applied when the dimension is unchanged; 'all-ground' only when it changed", f"QutipEmulator.{nm_} no longer keeps the user's initial state when the new configuration leaves the dimension unchanged (set_initial_state('all-ground') must run only under self.dim != former_dim)", E.where(g_))
+    rep.floor("SIB", 10)
+
     # ------------------------------------------------- UNIT: one idiom for the ns -> us conversion of the total duration
     # The emulator compares / merges times computed at different sites (evaluation times handed over by the backend
     # config, the end of the sequence, the relative time of a result).  x * 1e-3 and x / 1000 differ in the last bit
